@@ -90,7 +90,7 @@ impl TryFrom<&Value> for NaiveDateTime {
     fn try_from(value: &Value) -> Result<Self, Self::Error> {
         match value {
             Value::Number(value) => {
-                let milliseconds = (value * MILLISECONDS_PER_DAY) as i64;
+                let milliseconds = (value * MILLISECONDS_PER_DAY).round() as i64;
 
                 DateTime::from_timestamp_millis(milliseconds)
                     .map(|dt| dt.naive_utc())
